@@ -460,6 +460,7 @@ def run(rep, tier):
     # the key comparator must order identically in every configuration: unsigned memcmp order on every path (shared with C14)
     from . import c14
     c14.clause_e(f1, rep, ('::avx2::',))
+    c14.clause_b(f1, rep, tier)      # the AVX2-only equality kernel covers every byte (westmere and dynamic dispatch use memcmp / ==)
     c14.clause_e(f3, rep, ('::sse::',), min_returns=1)
     h1 = clause_h(f1, rep)
     h3 = clause_h(f3, rep)
